@@ -374,6 +374,20 @@ func c17Run(c *core.C) {
 				}
 			}
 		}
+		if c.Idx%16 == 5 && fam == 0 {
+			// one long straight chain (16 ... 129 attenuation blocks): counts beyond any buffer sized for "a few blocks"
+			want := []int{16, 17, 32, 33, 64, 65, 128, 129}[c.Idx/16%8]
+			for p := 0; len(f.Tokens[p].T.Blocks)-1 < want; {
+				before := len(f.Tokens)
+				if _, err := f.Append(p, mk()); err != nil {
+					c.Violate("derivation-refused", err.Error(), map[string]any{"ops": f.Ops})
+					return
+				}
+				parentOf[before] = p
+				p = before
+			}
+			c.Count("long_chain_families", 1)
+		}
 		lastParent := 0
 		for step, nSteps := 0, 8+r.Intn(8); step < nSteps; step++ {
 			// half of the time extend the longest chain (deep tokens), one time in five fork the
